@@ -47,7 +47,12 @@ class MHLIgnoreSpec:
         get_path_spec will return a pathspec.PathSpec instance filled with the contents of self.ignore_list
         the returned pathspec.PathSpec instance can be used to match against filepaths.
         """
-        return pathspec.PathSpec.from_lines("gitwildmatch", iter(self._ignore_list))
+        # the last matching pattern decides, so the default patterns go last: a negated user pattern ("!folder")
+        # must not bring the ascmhl folders (or .DS_Store) inside that folder back in, they are always excluded
+        default_patterns = default_ignore_list()
+        patterns = [pattern for pattern in self._ignore_list if pattern not in default_patterns]
+        patterns += [pattern for pattern in self._ignore_list if pattern in default_patterns]
+        return pathspec.PathSpec.from_lines("gitwildmatch", iter(patterns))
 
     def get_pattern_list(self):
         return self._ignore_list.copy()
